@@ -267,9 +267,11 @@ impl<F: Field, EF: ExtensionField<F> + BasedVectorSpace<F>, RecMmcs: RecursiveEx
 
     fn new(circuit: &mut CircuitBuilder<EF>, input: &Self::Input) -> Self {
         let log_arity = input.log_arity as usize;
-        let arity = 1usize << log_arity;
-        let num_siblings = arity - 1;
-        let num_coeffs = num_siblings * EF::DIMENSION;
+        // Size the targets from the sibling values actually present in the proof, not from the
+        // prover-supplied `log_arity`: `(1 << log_arity) - 1` overflows or requests an absurd
+        // allocation for large values, and it would make the later length check against
+        // `log_arity` vacuous. `verify_fri_circuit` validates this length against the schedule.
+        let num_coeffs = input.sibling_values.len() * EF::DIMENSION;
         let sibling_coefficients =
             circuit.alloc_private_inputs(num_coeffs, "FRI commit phase sibling coefficients");
         let opening_proof = RecMmcs::Proof::new(circuit, &input.opening_proof);
